@@ -139,6 +139,7 @@ def run(case: dict, *, count_only: bool = False) -> Obs:
         sc = env.dns.get(a)
         n_addr += len(sc[1]) if sc and sc[0] == "ok" else 1
     obs.n_addr = max(1, n_addr)
+    env.sock_fault = case.get("sock_fault")
     if not case.get("auto", True):
         dev.auto = set()
     dev.latency = int(case.get("latency", 1)) * D
@@ -309,6 +310,11 @@ def run(case: dict, *, count_only: bool = False) -> Obs:
             if noise and sess.noise is None:
                 obs.skipped.append(f"{idx}:chunk-before-noise-ready")
                 return
+            if noise and sess.inflight:
+                # bytes the device sent earlier are still on their way: an injected frame would overtake them on the
+                # same TCP stream (and break the nonce sequence) – impossible on a real connection, so not injected
+                obs.skipped.append(f"{idx}:chunk-would-overtake-in-flight-data")
+                return
             data = encode_frames(sess, ev["frames"])
             cuts = ev.get("cuts")
             if cuts:
@@ -417,8 +423,9 @@ def _probe_reuse(env: Env, obs: Obs, login: bool) -> None:
                     out.append((name, type(e).__name__))
             return out
 
-        if st_name == "INITIALIZED":
-            continue  # never used
+        used = any(e["kind"] == "conn_start_called" and e["conn"] == cid for e in env.trace)
+        if not used:
+            continue  # its start_connection coroutine never began to run (caller cancelled first)
         task = loop.create_task(probe())
         loop.horizon = loop.time() + 500
         try:
@@ -691,8 +698,36 @@ def case_strategy(draw, tier: str = "quick", max_events: int = 4, min_events: in
         c["hello_cuts"] = draw(st.lists(st.integers(0, 40), min_size=1, max_size=3))
     if c["login"] and draw(st.booleans()):
         c["password"] = "pw"
+    if draw(st.integers(0, 11)) == 0:
+        c["sock_fault"] = draw(st.sampled_from(SOCK_FAULTS))
+    if draw(st.integers(0, 11)) == 0:
+        # a name that goes to the scripted OS resolver: failure / slowness in the resolve stage
+        c["addresses"] = ["a.example.com"]
+        c["dns"] = {"a.example.com": draw(st.sampled_from([["ok", ["10.1.0.1"], 2], ["error", 1], ["error", 8], ["empty", 1], ["hang"], ["ok", ["10.1.0.1"], 24]]))}
     c["events"] = draw(st.lists(_event_strategy(45), min_size=min_events, max_size=max_events))
     return c
+
+
+SOCK_FAULTS = ["setblocking", "nodelay", "getpeername", "quickack", "rcvbuf"]
+
+
+def sock_fault_sweep():
+    """A socket set-up call fails right after the TCP connect succeeded (alone and with a user call / fault in the same run)."""
+    for sc in golden_scenarios():
+        for f in SOCK_FAULTS:
+            yield {**sc, "sock_fault": f, "events": []}
+            for ev in ({"do": "disconnect", "at": 17}, {"do": "force", "at": 16}, {"do": "cancel", "at": 16}):
+                yield {**sc, "sock_fault": f, "events": [ev]}
+
+
+def resolve_stage_sweep():
+    """Failures, slowness and user calls while the host name is still being resolved."""
+    for sc in golden_scenarios():
+        for d in (["error", 1], ["error", 8], ["empty", 1], ["hang"], ["ok", ["10.1.0.1"], 8]):
+            base = {**sc, "addresses": ["a.example.com"], "dns": {"a.example.com": d}}
+            yield {**base, "events": []}
+            for ev in ({"do": "disconnect", "at": 4}, {"do": "force", "at": 4}, {"do": "cancel", "at": 4}, {"do": "cancel", "it": 3}, {"do": "force", "it": 4}):
+                yield {**base, "events": [ev]}
 
 
 # ===========================================================================
